@@ -208,6 +208,12 @@ def jsonEntries (P : Params) (cfg : Cfg) (vty : Ty) : List (Bytes × Bytes) → 
 def mapKeyMatches (full : Bytes) (e : Bytes × List Bytes) : Bool :=
   hasPrefix e.1 (full ++ B ".") || hasPrefix e.1 (full ++ B "[")
 
+/-- the entries the map field holds already (nil map, nil pointer: none) -/
+def curMap : Val → List (Bytes × Val)
+  | .map kvs => kvs
+  | .ptr (.map kvs) => kvs
+  | _ => []
+
 /-- setMapField (field type `map[string]V` or `*map[string]V`) -/
 def setMap (P : Params) (cfg : Cfg) (ty : Ty) (cur : Val) (g : Getter) (name : Bytes) : Except Err Val :=
   let full := g.pre ++ name
@@ -219,10 +225,7 @@ def setMap (P : Params) (cfg : Cfg) (ty : Ty) (cur : Val) (g : Getter) (name : B
     | .map v => (v, false)
     | .ptr (.map v) => (v, true)
     | _ => (ty, false)
-  let m0 : List (Bytes × Val) := match cur with
-    | .map kvs => kvs
-    | .ptr (.map kvs) => kvs
-    | _ => []
+  let m0 : List (Bytes × Val) := curMap cur
   let wrap := fun (m : List (Bytes × Val)) => if isPtr then Val.ptr (.map m) else Val.map m
   match (if qf then bindMapEntries P cfg vty full g.src.kvs 0 m0 else .ok m0) with
   | .error e => .error e
